@@ -19,7 +19,9 @@ Obl(e) == <<
   <<"present-iff-servable", (e.parse_ok /\ Len(e.slots) = Len(e.kinds)) =>
        \A j \in 1..Len(e.kinds) : e.slots[j].present <=> Servable(e.cfg, e.kinds[j])>>,
   <<"present-finalizes-to-valid-token", (e.parse_ok /\ Len(e.slots) = Len(e.kinds)) =>
-       \A j \in 1..Len(e.kinds) : e.slots[j].present => (e.slots[j].fin_ok /\ e.slots[j].oracle_ok)>>,
+       \A j \in 1..Len(e.kinds) : e.slots[j].present =>
+          IF AnsweredByOtherKey(e.cfg, e.kinds[j]) THEN ~e.slots[j].fin_ok      \* answered under the colliding key: refused by the client
+          ELSE (e.slots[j].fin_ok /\ e.slots[j].oracle_ok)>>,
   <<"model-slots", (e.parse_ok /\ Len(e.slots) = Len(e.kinds)) =>
        \A j \in 1..Len(e.kinds) : e.slots[j].present <=> (FillSlot(e.cfg, e.kinds[j], j) # Absent)>> >>
 
